@@ -116,9 +116,31 @@ def gen_cases(ctx, g, n):
         cases.append((("mapping", [U, I]), {nd: 1, nd.uuid: 2}, env))
         cases.append((("sequence", [("set", [U])]), [{nd, nd.uuid}, {other}], env))
         cases.append((("tuple", [("set", [U]), I]), ({nd.uuid, nd}, 7), env))
-    for _ in range(n):
-        t = auxval.rand_type(rng, rng.choice([0, 1, 1, 2, 2, 3, 4, 5]))
-        cases.append((t, auxval.rand_value(rng, t, env), env))
+    # "any nesting": containers as set elements and mapping keys (their Python values are tuples / frozensets, the hashable forms)
+    S8, Q8, V8 = ("set", [I]), ("sequence", [I]), ("variant", [I, ("string", [])])
+    Var = g.serialization.Variant
+    env.unbuildable = []        # (type, why): types of the grammar for which no Python value could even be constructed
+
+    def fixed(t, mk):
+        try:
+            cases.append((t, mk(), env))
+        except TypeError as e:
+            env.unbuildable.append((auxval.type_str(t), str(e)))
+    fixed(("set", [Q8]), lambda: {(1, 2), (), (250,)})
+    fixed(("set", [S8]), lambda: {frozenset({1, 2}), frozenset()})
+    fixed(("set", [V8]), lambda: {Var(0, 7), Var(1, "x")})
+    fixed(("mapping", [Q8, I]), lambda: {(1, 2): 3, (): 4})
+    fixed(("mapping", [S8, Q8]), lambda: {frozenset({9}): [1, 2]})
+    fixed(("mapping", [("tuple", [Q8, ("string", [])]), I]), lambda: {((1,), "k"): 1})
+    fixed(("mapping", [V8, I]), lambda: {Var(1, "k"): 1})
+    fixed(("set", [("sequence", [("set", [U])])]), lambda: {(frozenset({env.attached[0]}),), ()})
+    fixed(("sequence", [("set", [("tuple", [Q8, V8])])]), lambda: [{((5, 6), Var(1, "é"))}, set()])
+    for k in range(n):
+        t = auxval.rand_type(rng, rng.choice([0, 1, 1, 2, 2, 3, 4, 5]), rich=(k % 3 == 0))
+        try:
+            cases.append((t, auxval.rand_value(rng, t, env), env))
+        except TypeError as e:
+            env.unbuildable.append((auxval.type_str(t), str(e)))
     return cases, env
 
 
